@@ -176,4 +176,28 @@ def handleMessageRrl (cfg : Cfg) (tr : Transport) (now : Nat) (bufLen : Nat) (re
   | .err _ => .panic
   | .panic => .panic
 
+/-- one received message together with the environment inputs read while it is handled -/
+structure Arrival where
+  tr : Transport
+  now : Nat
+  bufLen : Nat
+  req : Bytes
+  src : Rrl.IpAddr
+  tnow : Nat
+  rnd : Bool
+
+/-- one `Server` with RRL enabled handles a sequence of messages: the table is the only state that
+    passes from one call of `handle_message` to the next. (Calls may run concurrently; each holds
+    the lock of the one bucket it touches for its whole read-modify-write, so every concurrent run
+    is some sequence of this form.) -/
+def serveAll (cfg : Cfg) (rs : Rrl.RandomState) : Rrl.Rrl → List Arrival → Out Unit (List (Option Bytes) × Rrl.Rrl)
+  | rrl, [] => .ok ([], rrl)
+  | rrl, a :: rest =>
+    match handleMessageRrl cfg a.tr a.now a.bufLen a.req rs rrl a.src a.tnow a.rnd with
+    | .ok (resp, rrl') =>
+      match serveAll cfg rs rrl' rest with
+      | .ok (resps, rrl'') => .ok (resp :: resps, rrl'')
+      | _ => .panic
+    | _ => .panic
+
 end QV.Server
